@@ -559,6 +559,8 @@ func (ospf *OSPFv2) DecodeFromBytes(data []byte, df gopacket.DecodeFeedback) err
 		return fmt.Errorf("OSPF packet length %d exceeds available data %d", ospf.PacketLength, len(data))
 	}
 
+	// a type without a content below must not keep that of an earlier decode
+	ospf.Content = nil
 	switch ospf.Type {
 	case OSPFHello:
 		if len(data) < 44 {
@@ -673,6 +675,8 @@ func (ospf *OSPFv3) DecodeFromBytes(data []byte, df gopacket.DecodeFeedback) err
 		return fmt.Errorf("OSPF packet length %d exceeds available data %d", ospf.PacketLength, len(data))
 	}
 
+	// a type without a content below must not keep that of an earlier decode
+	ospf.Content = nil
 	switch ospf.Type {
 	case OSPFHello:
 		if len(data) < 36 {
